@@ -53,7 +53,9 @@ PANIC_NAMES = ("unwrap", "expect", "unwrap_err", "expect_err", "unwrap_unchecked
                "unreachable", "unreachable_display", "assert_failed", "index", "index_mut", "unwrap_failed", "expect_failed",
                "begin_panic", "panic_explicit", "split_at", "split_at_mut", "swap_remove", "copy_from_slice")
 
-# reviewed table: (function root, panic callee suffix, source) -> invariant
+# reviewed table: (function root, panic callee suffix, source) -> invariant; PANIC_TABLE_MULT gives the number of
+# sites a line was written for (default 1): a further site with the same key is not covered by it.
+PANIC_TABLE_MULT = {(NODE + "::new", "panic", "assert!"): 3}
 PANIC_TABLE = {
     (NODE + "::get_child_mut", "unwrap", "write_fmt"):
         "fmt::Write for String never returns Err",
@@ -634,6 +636,7 @@ def panic_audit(ctx, f, gcm, create_idx, none_ok):
                 counts[key] = counts.get(key, 0) + 1
                 # recognised guards
                 why = None
+                why_not = None
                 if (kind in ("unwrap", "expect") and srccall is not None and (srccall.c.get("res") or srccall.c.get("fn")) == gcm.id
                         and src.endswith(".0")):
                     k = mir.resolve_const(b, srccall.args[create_idx - 1])
@@ -653,13 +656,17 @@ def panic_audit(ctx, f, gcm, create_idx, none_ok):
                             why = "guard: SignalEmitter::new::<ObjectPath> — its only fallible step is P::try_into, the identity for ObjectPath"
                 if why is None:
                     ent = PANIC_TABLE.get((fn, kind, src))
+                    if ent and counts[key] > PANIC_TABLE_MULT.get((fn, kind, src), 1):
+                        ent = None
+                        why_not = "the table line for this key covers %d site(s); this is a further one" % PANIC_TABLE_MULT.get((fn, kind, src), 1)
                     if ent:
                         why = "table: " + ent
                         if ent.startswith("ASSUMPTION"):
                             if ent not in ctx.assumptions:
                                 ctx.assumptions.append("%s %s(%s): %s" % (fn, kind, src, ent))
-                ctx.ob("PANIC", key, why is not None,
-                       why or "%s of %s can panic and no guard or table line discharges it" % (kind, src), c.where)
+                ctx.ob("PANIC", key if counts[key] == 1 or why is not None else "%s#%d" % (key, counts[key]), why is not None,
+                       why or "%s of %s can panic and no guard or table line discharges it%s" % (
+                           kind, src, " (%s)" % why_not if why_not else ""), c.where)
     ctx.floor("PANIC", "panic-capable sites on the at/remove/interface paths", n, 5)
 
 
